@@ -115,6 +115,15 @@ def value(draw, ai, sep):
         return v, v
     if ai == '8007':
         v = draw(st.sampled_from(IBANS))  # valid IBANs (ISO 13616 examples)
+        # ... also in the spellings the IBAN validator accepts (lower / mixed case, grouped with hyphens): the element string
+        # carries the text as given
+        mode = draw(st.integers(0, 4))
+        if mode == 1:
+            v = v.lower()
+        elif mode == 2:
+            v = v[:4].lower() + v[4:]
+        elif mode == 3 and len(v) + (len(v) - 1) // 4 <= 34 and '-' not in sep:
+            v = '-'.join(v[i:i + 4] for i in range(0, len(v), 4))
         return v, v
     if typ == 'str':
         out = ''
@@ -162,7 +171,14 @@ def value(draw, ai, sep):
             if draw(st.booleans()):
                 return d.strftime('%y%m%d'), d
             d2 = d + datetime.timedelta(days=draw(st.integers(0, 400)))
-            return d.strftime('%y%m%d') + d2.strftime('%y%m%d'), (d, d2)
+            e1, e2 = d.strftime('%y%m%d'), d2.strftime('%y%m%d')
+            # day 00 = last day of the month, in either half of the pair
+            z = draw(st.integers(0, 5))
+            if z in (1, 3):
+                e1, d = d.strftime('%y%m') + '00', last_day(d.year, d.month)
+            if z in (2, 3):
+                e2, d2 = d2.strftime('%y%m') + '00', last_day(d2.year, d2.month)
+            return e1 + e2, (d, d2)
         hh, mm, ss = draw(st.integers(0, 23)), draw(st.integers(0, 59)), draw(st.integers(0, 59))
         if fmt == 'N10':
             dt = datetime.datetime(d.year, d.month, d.day, hh, mm)
